@@ -447,7 +447,7 @@ pub fn phase_names(c: &mut Ctx) {
         let want: Vec<(i128, &'static str)> = c.model.iter().map(|p| (p.0, p.1)).collect();
         let got = guard(z);
         c.st.transitions += 1;
-        c.st.h("names", &got.clone().ok());
+        c.st.h("zip(iter,names)", &got.clone().ok());
         if got.as_ref() != Ok(&want) {
             c.violation("names", "iter().zip(names()).collect()", &format!("{:?}", &want[..want.len().min(12)]), &format!("{:?}", got.map(|v| v.into_iter().take(12).collect::<Vec<_>>())));
         }
